@@ -55,7 +55,9 @@ struct AkbRes {
   }
 };
 
-AkbRes& akb_res();
+AkbRes& akb_res();    // result record of the bridge call currently executing (calls may nest through callbacks)
+AkbRes& akb_last();   // result record of the most recently completed outermost-or-nested call (what Python reads)
+struct AkbFrame { AkbFrame(); ~AkbFrame(); };
 
 struct AkbContent { ak::ContentPtr p; };
 struct AkbForm { ak::FormPtr p; };
@@ -74,7 +76,7 @@ ak::Slice akb_slice(const AkbArgs* a, int64_t& ipos);
 
 // every entry point is wrapped in this: exceptions -> error record, never swallowed silently
 #define AKB_TRY(body)                                                        \
-  AkbRes& R = akb_res(); R.clear();                                          \
+  AkbFrame _akb_frame; AkbRes& R = akb_res(); R.clear();                     \
   try { body; return 0; }                                                    \
   catch (std::invalid_argument& e) { R.err_class = "ValueError"; R.err_msg = e.what(); }       \
   catch (std::out_of_range& e) { R.err_class = "IndexError"; R.err_msg = e.what(); }            \
